@@ -69,19 +69,53 @@ func c01ReaderView(base string, day int64) string {
 		return "err:open"
 	}
 	defer d.Close()
-	var blocks []string
-	for i := 0; i < d.NBlocks(); i++ {
-		var cols []string
+	n := d.NBlocks()
+	// pass 1: ascending, as a query reads
+	view := make([][]string, n)
+	raw := make([][][]byte, n)
+	for i := 0; i < n; i++ {
+		view[i] = make([]string, types.ColIdxCount)
+		raw[i] = make([][]byte, types.ColIdxCount)
 		for c := types.ColumnIndex(0); c < types.ColIdxCount; c++ {
 			data, err := d.ReadBlockAtIndex(c, i)
 			if err != nil {
-				cols = append(cols, "ERR")
+				view[i][c] = "ERR"
 				continue
 			}
-			cols = append(cols, hexBytes(data))
+			raw[i][c] = append([]byte{}, data...)
+			view[i][c] = hexBytes(data)
 		}
+	}
+	// pass 2: "returned with exactly the bytes that were written" does not depend on what was read
+	// before: a second reader reads every ordered pair of blocks (i then j, also backwards and skipping);
+	// a block that comes back differently than in pass 1 is reported with what it came back as
+	if n >= 2 && n <= 14 {
+		d2 := gpfile.NewDirReader(base, day, suffix)
+		if err := d2.Open(); err == nil {
+			for i := 0; i < n; i++ {
+				for j := 0; j < n; j++ {
+					if i == j {
+						continue
+					}
+					for c := types.ColumnIndex(0); c < types.ColIdxCount; c++ {
+						_, _ = d2.ReadBlockAtIndex(c, i)
+						data, err := d2.ReadBlockAtIndex(c, j)
+						switch {
+						case err != nil && view[j][c] != "ERR":
+							view[j][c] = "ERR"
+						case err == nil && view[j][c] != "ERR" && !bytes.Equal(data, raw[j][c]):
+							view[j][c] = hexBytes(data)
+						}
+					}
+				}
+			}
+			_ = d2.Close()
+		}
+	}
+	var blocks []string
+	for i := 0; i < n; i++ {
 		bt := d.BlockTraffic[i]
-		blocks = append(blocks, fmt.Sprintf("%d:%d:%d:%d:%s", d.BlockMetadata[0].BlockList[i].Timestamp, bt.NumV4Entries, bt.NumV6Entries, bt.NumDrops, strings.Join(cols, "|")))
+		blocks = append(blocks, fmt.Sprintf("%d:%d:%d:%d:%s", d.BlockMetadata[0].BlockList[i].Timestamp, bt.NumV4Entries, bt.NumV6Entries, bt.NumDrops, strings.Join(view[i], "|")))
 	}
 	t, c := d.Metadata.Traffic, d.Metadata.Counts
 	return fmt.Sprintf("blocks=%s totals=%d:%d:%d:%d:%d:%d:%d", listField(blocks), t.NumV4Entries, t.NumV6Entries, t.NumDrops, c.BytesRcvd, c.BytesSent, c.PacketsRcvd, c.PacketsSent)
@@ -205,6 +239,12 @@ func c01Gen(r *Rand, tier string) []Case {
 			nsess = nenc + r.Intn(3)
 		}
 		slot := 0
+		// 1 in 5 histories lay out one column so that a later block starts exactly "raw size of the first
+		// block" bytes after the first block (see below)
+		aliasCol, aliasStep, aliasRaw, aliasFill := -1, 0, Pick(r, []int{300, 1000, 4096, 5000}), 0
+		if r.Chance(1, 5) && encNames[0] != "null" {
+			aliasCol = r.Intn(8)
+		}
 		var stored []int64 // timestamps of committed sessions
 		var sess []string
 		nbig, nfallbackBig := 0, 0
@@ -214,6 +254,9 @@ func c01Gen(r *Rand, tier string) []Case {
 			var mine []int64
 			abandoned := false
 			for w := 0; w < nw && !abandoned; w++ {
+				if aliasCol >= 0 && aliasStep < 3 && (s > 0 || w > 0) {
+					aliasStep++
+				}
 				slot += 1 + r.Intn(3)
 				ts := c01Day + int64(slot)*300
 				if len(stored)+len(mine) > 0 && r.Chance(1, 12) {
@@ -232,7 +275,27 @@ func c01Gen(r *Rand, tier string) []Case {
 				}
 				for c := 0; c < 8; c++ {
 					data := c01Data(r, c == bigCol || (tier == "thorough" && r.Chance(1, 10)))
+					if c == aliasCol {
+						// "aliasing" layout on one column: a compressible block of raw size R stored in k bytes,
+						// then an incompressible filler of R-k bytes (stored raw), then a third block: it starts
+						// exactly R bytes after the first one, where a reader that took the raw size for the
+						// stored size would think it already is
+						switch aliasStep {
+						case 0:
+							data = make([]byte, aliasRaw)
+						case 1:
+							data = r.Bytes(aliasFill)
+						default:
+							data = r.Bytes(64)
+						}
+					}
 					comp := compressWith(encNames[s%nenc], levels[s%nenc], data)
+					if c == aliasCol && aliasStep == 0 {
+						aliasFill = aliasRaw - len(comp)
+						if len(comp) > len(data) || aliasFill < 24 {
+							aliasCol = -1 // (null encoder, or not compressible enough: no such layout)
+						}
+					}
 					if len(data) > 4096 {
 						nbig++
 						if len(comp) > len(data) {
@@ -261,7 +324,7 @@ func c01Gen(r *Rand, tier string) []Case {
 func init() {
 	register(&Prop{
 		ID:   "C01",
-		Rule: "seeded histories of 1-4 open/WriteBlocks*/Close sessions on one day directory with lz4 (levels 0,1,4,9,12), zstd (0..19) or the null encoder — in 1 of 3 histories the sessions use 2-3 DIFFERENT encoders in turn (a day written by differently configured writers); per write 8 column payloads of sizes {0,1,7,64,300,1000} and one of {4095,4096,4097,5000,8192,8193,12000,20000} with contents zeros / random / half-random / periodic; 1 in 12 writes reuses a stored timestamp (rejected, session abandoned without Close). The raw column files and a fresh reader's view are compared byte-for-byte with the model. Non-trivial: at least one payload above the 4096-byte bufio threshold. Distinct = distinct case lines.",
+		Rule: "seeded histories of 1-4 open/WriteBlocks*/Close sessions on one day directory with lz4 (levels 0,1,4,9,12), zstd (0..19) or the null encoder — in 1 of 3 histories the sessions use 2-3 DIFFERENT encoders in turn (a day written by differently configured writers); per write 8 column payloads of sizes {0,1,7,64,300,1000} and one of {4095,4096,4097,5000,8192,8193,12000,20000} with contents zeros / random / half-random / periodic; 1 in 12 writes reuses a stored timestamp (rejected, session abandoned without Close). 1 in 5 histories lay out one column so that its third block starts exactly (raw size of the first block) bytes behind the first block. The raw column files and a fresh reader's view — read in ascending order and, by a second reader, as every ordered pair of blocks (backwards, skipping) — are compared byte-for-byte with the model. Non-trivial: at least one payload above the 4096-byte bufio threshold. Distinct = distinct case lines.",
 		Gen:  c01Gen,
 		Run:  c01Run,
 	})
